@@ -1,4 +1,4 @@
-"""Engine E: index-search loops decided by inductive invariants in a linear-constraint domain.
+"""Engine F: index-search loops decided by inductive invariants in a linear-constraint domain.
 
 A function body over integer index variables, sorted sequences and real queries is translated once from the Python
 syntax tree into a small IR.  Two readers of that IR exist:
